@@ -281,41 +281,96 @@ def _untouched(ctx) -> None:
                message=f"{q} changes the vector's name/orientation: {bad}")
 
 
+def _compatible(c1, c2) -> bool:
+    """can both path conditions hold on one execution?  (no literal of one is false under the literals of the other)"""
+    from ..symx import beval, flatten_conds
+    for a, b in ((c1, c2), (c2, c1)):
+        atoms = {}
+        for t, pol in flatten_conds(b):
+            atoms[t] = pol
+        for t, pol in flatten_conds(a):
+            v = beval(t, atoms)
+            if isinstance(v, bool) and v != pol:
+                return False
+    return True
+
+
+def _can_follow(a, b) -> bool:
+    """event b can execute after event a on one run of the function"""
+    if not _compatible(a.conds, b.conds):
+        return False
+    return b.seq > a.seq or bool(set(a.loops) & set(b.loops))
+
+
 def _table(ctx) -> None:
+    """Table.__setitem__ on its symx event log (private helpers in line): which cells are stored, that no failure can follow a
+    store, and that every value sequence paired with the target columns was length-checked against them."""
+    from ..sites2 import interp_of
+    from ..symx import deep_subterms, flatten_conds, show, subterms
     prog = ctx.prog
     f = prog.func("table.Table.__setitem__")
-    cfg = cfg_of(f)
-    stores = []
-    for n in cfg.stmt_nodes():
-        st = n.ast
-        if isinstance(st, ast.Assign) and isinstance(st.targets[0], ast.Subscript):
-            stores.append(n)
-    if len(stores) < 4:
+    it = interp_of(prog, f)
+    SELF, KEY, VALUE = ("param", f.params[0]), ("param", f.params[1]), ("param", f.params[2])
+    cols = (("attr", SELF, "_underlying"), ("call", ("attr", SELF, "cols"), (), ()))
+    stores = [e for e in it.events if e.kind == "store" and e.term[0] == "sub"]
+    cell_stores = [e for e in stores if e.term[1][0] == "sub" and e.term[1][1] in cols]
+    if not cell_stores:
         raise AnalysisError("Table.__setitem__: cell stores not found")
     problems = []
-    for n in stores:
-        t = n.ast.targets[0]
-        if not (isinstance(t.value, ast.Subscript) and short(t.value.value) == "self._underlying" and isinstance(t.slice, ast.Name)
-                and len({short(x.ast.targets[0].slice) for x in stores}) == 1):
-            problems.append(f"`{short(n.ast, 60)}` is not a write of the addressed rows of one of the table's own columns")
-    ctx.ob("f.table-delegation", f, "store-shape", not problems, f"{len(stores)} stores, each self._underlying[idx][row_spec] = value",
-           stores[0].ast, message="; ".join(problems))
-    # resolution precedes stores: every raise SerifKeyError / SerifTypeError about the column spec dominates... i.e. no such raise after a store
+    rows = {e.term[2] for e in cell_stores}
+    for e in stores:
+        if e not in cell_stores and any(x in cols for x in deep_subterms(it, e.term)):
+            problems.append(f"`{show(e.term, it)[:60]} = ...` is not a write of the addressed rows of one of the table's own columns")
+    if len(rows) != 1:
+        problems.append(f"the stores address different row specs: {sorted(show(r, it)[:30] for r in rows)}")
+    else:
+        r = next(iter(rows))
+        if not any(x == KEY for x in subterms(r)):
+            problems.append(f"the row spec `{show(r, it)[:40]}` does not come from the key")
+    ctx.ob("f.table-delegation", f, "store-shape", not problems, f"{len(cell_stores)} stores, each self._underlying[idx][row_spec] = value",
+           cell_stores[0].node, message="; ".join(problems[:2]))
+    # nothing that reports a bad key / shape can follow a store
     late = []
-    for m in stores:
-        for n in cfg.stmt_nodes():
-            if isinstance(n.ast, ast.Raise) and cfg.can_reach(m, n) and ("Column" in short(n.ast) or "column index" in short(n.ast)):
-                late.append(f"`{short(n.ast, 50)}` after the store at line {m.lineno}")
-    ctx.ob("f.table-delegation", f, "resolve-first", not late, "column resolution errors precede every store", f.node,
+    for m in cell_stores:
+        for e in it.events:
+            if e.kind == "raise" and _can_follow(m, e):
+                late.append(f"`raise {show(e.term, it)[:50]}` can follow the store `{show(m.term, it)[-40:]} = ...` (line "
+                            f"{getattr(m.node, 'lineno', '?')}): a failed assignment would leave cells written")
+                break
+    ctx.ob("f.table-delegation", f, "resolve-first", not late, "column resolution and shape errors precede every store", f.node,
            message="; ".join(late[:2]))
-    # value-shape checks (length mismatch raises) precede the stores of their own case
-    tests = [s for s in walk_stmts(f.body) if isinstance(s, ast.If) and any(isinstance(b, ast.Raise) for b in s.body)
-             and ("len(" in short(s.test))]
-    ctx.ob("f.table-delegation", f, "shape-guards", len(tests) >= 3, f"{len(tests)} shape guards (row / table / list assignment)", f.node,
-           message="Table.__setitem__ lost a length guard of the row/table/list assignment forms")
-    fin = f.body[-1]
-    ctx.ob("f.table-delegation", f, "final-raise", isinstance(fin, ast.Raise) and "SerifTypeError" in short(fin),
-           "unsupported value types raise SerifTypeError", fin, message="Table.__setitem__ does not end by raising for unsupported values")
+    # a value sequence paired position-by-position with the target columns was length-checked against them
+    missing = []
+    n_paired = 0
+    for e in cell_stores:
+        v = e.value
+        paired = None
+        for L in e.loops:
+            lp = it.loops[L]
+            dom = lp.domain if lp.domain is not None else lp.iter
+            if v[0] == "sub" and v[2] == ("idx", L):
+                paired = (v[1], dom if dom[0] != "tuple" else dom[1][0])
+            elif v[0] == "elem" and v[2] == L and dom is not None and dom[0] == "tuple" and len(dom[1]) == 2 and v[1] in dom[1]:
+                other = [d for d in dom[1] if d != v[1]]
+                paired = (v[1], other[0]) if other else None
+        if paired is None:
+            continue
+        n_paired += 1
+        seq, tgt = paired
+        ln = lambda c: ("call", ("name", "len"), (c,), ())
+        ok = any(pol and t[0] == "cmp" and t[1] == "Eq" and {t[2], t[3]} == {ln(seq), ln(tgt)} for t, pol in flatten_conds(e.conds))
+        if not ok:
+            missing.append(f"`... = {show(v, it)[:40]}` pairs `{show(seq, it)[:30]}` with the target columns without a raising "
+                           f"`len(...) != len(<targets>)` check before it")
+    ctx.ob("f.table-delegation", f, "shape-guards", not missing and n_paired >= 1,
+           f"{n_paired} position-paired stores, each after a raising length comparison with the target columns", f.node,
+           message="; ".join(missing[:2]) or "Table.__setitem__ has no row / table / list assignment form any more")
+    # unsupported values raise
+    fin = [e for e in it.events if e.kind == "raise" and e.term[0] == "call" and e.term[1] == ("name", "SerifTypeError")
+           and any(x == VALUE for t, pol in flatten_conds(e.conds) for x in subterms(t))
+           and all(not _compatible(m.conds, e.conds) for m in cell_stores)]
+    ctx.ob("f.table-delegation", f, "final-raise", bool(fin) and not it.falls_through,
+           "unsupported value types raise SerifTypeError", f.node, message="Table.__setitem__ does not end by raising for unsupported values")
 
 
 _V, _T = "vector", "table"
